@@ -9,7 +9,7 @@ ID = 'C11'
 RULE = ('Hypothesis draws a C01-style model (1-5 attrs, sizes 1-4, clique shapes incl. cycles / nested / disconnected, '
         'potentials with -inf cells, total 0.3..1e6, elimination-order mode), optionally caches its clique marginals, and '
         'generates synthetic data twice on the same model object (rows in {None,1,2,7,100,1e4} and a second row count two '
-        'decades away; thorough adds 1e5,1e6) with method round or sample and a drawn numpy seed. Oracle: brute-force '
+        'decades away, then replaces the potentials and generates a third time; thorough adds 1e5,1e6) with method round or sample and a drawn numpy seed. Oracle: brute-force '
         'joint. Checks: row count, column order, value ranges, no record in a zero-probability cell (every clique and the '
         'full joint); round mode: per-clique count error within the rows-independent bound B(C) derived by induction '
         'along the generation order; sample mode: Hoeffding bound with a 1e-12 union bound. Non-trivial = >=2 columns '
@@ -157,6 +157,17 @@ def run_case(case):
         rows2 = case['rows2'] if case['rows2'] != exp1 else case['rows2'] + 1
         d2 = model.synthetic_data(rows=rows2, method=method)
         check_data(out, ':second', d2.df, model, attrs, shape, P, rows2, method, B)
+    if out.ok and case.get('refit', True):
+        # history: the parameters of the same model object are replaced (as GraphicalModel.fit or a new round of
+        # inference would do); the next generation must realise the NEW distribution
+        case2 = dict(case, factors=[dict(f, vals=dict(f['vals'], seed=f['vals']['seed'] + 101)) for f in case['factors']])
+        factors2 = c01.build_factors(case2)
+        P2, _ = oracles.joint(attrs, shape, factors2, float(total))
+        model.potentials = c01.fold_potentials(mbi, domain, model, factors2)
+        if case['cached']:
+            model.marginals = model.belief_propagation(model.potentials)
+        d3 = model.synthetic_data(rows=case['rows2'], method=method)
+        check_data(out, ':after_refit', d3.df, model, attrs, shape, P2, case['rows2'], method, B)
     order, plan = generation_plan(model)
     prob = P / float(total)
     cond = 0
